@@ -27,10 +27,10 @@ var spot string
 
 var spotlights = map[string][]string{
 	"C01": {"swap-recheck", "other-invoker", "sibling-P", "inv-as-proof", "lookalike", "long-chain", "prov-dlg", "hook-twice", "rootless-after"},
-	"C02": {"self-K", "sibling-K", "alike", "deep", "top-under-one", "long-chain", "reserved", "repeat-cmd", "rawcmd"},
-	"C03": {"uslice", "nullopt", "alias", "twin", "sibling-Q", "hook-null", "optional-and", "starstr", "same-selector", "second-args"},
+	"C02": {"self-K", "sibling-K", "alike", "deep", "top-under-one", "long-chain", "reserved", "repeat-cmd", "rawcmd", "widen-back"},
+	"C03": {"uslice", "nullopt", "alias", "twin", "sibling-Q", "hook-null", "optional-and", "starstr", "same-selector", "second-args", "below-element"},
 	"C04": {"far-nbf", "sibling-W", "both-bounds", "unbounded-then-bad", "shared-option"},
-	"C05": {"far-exp", "uslice", "prov-inv", "prov-dlg", "hook-twice", "long-chain", "reuse", "starstr", "repeat-cmd", "overlap-args", "churn", "second-args"},
+	"C05": {"far-exp", "uslice", "prov-inv", "prov-dlg", "hook-twice", "long-chain", "reuse", "starstr", "repeat-cmd", "overlap-args", "churn", "second-args", "below-element"},
 	"C07": {"far-exp", "uslice", "nullopt"},
 	"C09": {"inv-as-proof", "long-chain", "deep"},
 	"":    {"swap-recheck", "other-invoker", "self-K", "sibling-K", "uslice", "nullopt", "alias", "twin", "far-nbf", "far-exp", "inv-as-proof", "sibling-W"},
@@ -279,6 +279,15 @@ func genArgs(r *Rand) []KV {
 		}
 		out = append(out, KV{"u", vStr(string(rs))})
 	}
+	if spotWant(r, "below-element", 0.15) {
+		// a list of [name, number] pairs (statements that look BELOW the element of a quantifier)
+		n := r.Range(1, 4)
+		l := make([]Val, n)
+		for i := range l {
+			l[i] = vList(vStr(fmt.Sprintf("k%d", i)), vInt(int64(r.Range(0, 9))))
+		}
+		out = append(out, KV{"pairs", Val{K: "list", L: l}})
+	}
 	if r.Chance(0.2) {
 		// a list of records, some of which lack the field x (optional selectors under all)
 		n := r.Range(1, 4)
@@ -448,9 +457,9 @@ func genStmt0(r *Rand, a []KV, want bool, depth int, top bool) Stmt {
 		return Stmt{Op: Pick(r, []string{"==", "<", ">="}), Sel: Pick(r, []string{".zz", ".m.zz", ".zz.y"}), Val: ptr(vInt(int64(r.Range(0, 5))))}
 	}
 	kv := a[r.Intn(len(a))]
-	if top && (spot == "uslice" || spot == "nullopt" || spot == "starstr" || spot == "second-args") {
+	if top && (spot == "uslice" || spot == "nullopt" || spot == "starstr" || spot == "second-args" || spot == "below-element") {
 		for _, x := range a {
-			if ((spot == "uslice" || spot == "second-args") && x.Key == "u") || (spot == "nullopt" && x.Key == "m") || (spot == "starstr" && x.Key == "g") {
+			if ((spot == "uslice" || spot == "second-args") && x.Key == "u") || (spot == "nullopt" && x.Key == "m") || (spot == "below-element" && x.Key == "pairs") || (spot == "starstr" && x.Key == "g") {
 				kv = x
 			}
 		}
@@ -517,6 +526,29 @@ func genStmt0(r *Rand, a []KV, want bool, depth int, top bool) Stmt {
 	case "bool":
 		return Stmt{Op: "==", Sel: sel, Val: ptr(vBool(v.B == want))}
 	case "list":
+		if len(v.L) > 0 && v.L[0].K == "list" && len(v.L[0].L) == 2 {
+			// pairs: the inner statement selects below the element, by index, from the end, by slice
+			e := v.L[r.Intn(len(v.L))]
+			k, n := e.L[0], e.L[1]
+			if want {
+				return Pick(r, []Stmt{
+					{Op: "any", Sel: sel, Kids: []Stmt{{Op: "==", Sel: ".[0]", Val: ptr(k)}}},
+					{Op: "any", Sel: sel, Kids: []Stmt{{Op: "==", Sel: ".[-1]", Val: ptr(n)}}},
+					{Op: "any", Sel: sel, Kids: []Stmt{{Op: "==", Sel: ".[1]", Val: ptr(n)}}},
+					{Op: "any", Sel: sel, Kids: []Stmt{{Op: "==", Sel: ".[0:1]", Val: ptr(vList(k))}}},
+					{Op: "any", Sel: sel, Kids: []Stmt{{Op: "and", Kids: []Stmt{{Op: "==", Sel: ".[0]", Val: ptr(k)}, {Op: "<=", Sel: ".[1]", Val: ptr(n)}}}}},
+					{Op: "all", Sel: sel, Kids: []Stmt{{Op: "like", Sel: ".[0]", Pat: "k*"}}},
+					{Op: "all", Sel: sel, Kids: []Stmt{{Op: ">=", Sel: ".[1]", Val: ptr(vInt(0))}}},
+				})
+			}
+			return Pick(r, []Stmt{
+				{Op: "any", Sel: sel, Kids: []Stmt{{Op: "==", Sel: ".[0]", Val: ptr(vStr("nokey"))}}},
+				{Op: "any", Sel: sel, Kids: []Stmt{{Op: "==", Sel: ".[-1]", Val: ptr(vInt(n.I + 100))}}},
+				{Op: "any", Sel: sel, Kids: []Stmt{{Op: "==", Sel: ".[0:1]", Val: ptr(k)}}},
+				{Op: "all", Sel: sel, Kids: []Stmt{{Op: "like", Sel: ".[0]", Pat: "z*"}}},
+				{Op: "all", Sel: sel, Kids: []Stmt{{Op: "<", Sel: ".[1]", Val: ptr(vInt(0))}}},
+			})
+		}
 		if len(v.L) > 0 && v.L[0].K == "map" {
 			// records: elements without x say nothing under ".x?", the others must satisfy the statement
 			have := false
@@ -918,6 +950,9 @@ func genWorld(r *Rand, cfg GenCfg) Plan {
 			nLinks = 1 + r.Intn(4)
 		}
 	}
+	if spot == "widen-back" {
+		nLinks = []int{9, 10, 12, 16, 17, 24, 33}[r.Intn(7)]
+	}
 	if spot == "rootless-after" {
 		// the top of a size class of small buffers (4, 8, 16, 32), so that the chain without its
 		// root is one shorter in the same class
@@ -949,7 +984,7 @@ func genWorld(r *Rand, cfg GenCfg) Plan {
 	switch spot {
 	case "swap-recheck", "other-invoker", "sibling-P", "sibling-K", "sibling-Q", "sibling-W", "prov-dlg", "prov-inv", "hook-twice", "far-exp", "reuse", "rootless-after", "second-args", "churn":
 		conform = true
-	case "self-K", "alike", "top-under-one", "reserved", "rawcmd":
+	case "self-K", "alike", "top-under-one", "reserved", "rawcmd", "widen-back":
 		conform, forced = false, "K"
 	case "repeat-cmd", "overlap-args", "shared-option":
 		conform = true
@@ -959,7 +994,7 @@ func genWorld(r *Rand, cfg GenCfg) Plan {
 		conform, forced = false, "Q"
 	case "far-nbf", "both-bounds", "unbounded-then-bad":
 		conform, forced = false, "W"
-	case "uslice", "nullopt", "starstr":
+	case "uslice", "nullopt", "starstr", "below-element":
 		if focus == "C03" {
 			conform, forced = false, "Q"
 		} else {
@@ -1681,8 +1716,34 @@ func (g *wgen) deviateK(c *chain) {
 		g.note("K:" + kind + "@inv")
 		return
 	}
+	if sp == "widen-back" {
+		// a long chain that widens at a proof index which is a multiple of 8 counted from the leaf
+		// (where an implementation working in batches changes batch)
+		if m := n / 8; m >= 1 && n-8*(1+r.Intn(m)) >= 1 {
+			k = n - 8*(1+r.Intn(m))
+			if k < 1 {
+				k = n - 8
+			}
+		}
+	}
 	nc, kind := notCovered(r, c.dlgs[k-1].Cmd)
 	if nc == "" {
+		return
+	}
+	if segs := cmdSegs(c.dlgs[k-1].Cmd); len(segs) >= 1 && (sp == "widen-back" || r.Chance(0.25)) {
+		// widen to an ANCESTOR of what was received and invoke something the narrow grant above
+		// covers as well: every delegation covers the invoked command, only the order of the grants
+		// is wrong
+		narrow := c.dlgs[k-1].Cmd
+		nc = "/" + strings.Join(segs[:r.Intn(len(segs))], "/")
+		for i := k; i < n; i++ {
+			c.dlgs[i].Cmd = nc
+		}
+		c.inv.Cmd = narrow
+		if r.Chance(0.5) {
+			c.inv.Cmd = extendCmd(r, narrow)
+		}
+		g.note(fmt.Sprintf("K:widen-and-back@%d/%d", k, n))
 		return
 	}
 	if nc != "/" && r.Chance(0.5) {
